@@ -12,7 +12,8 @@ by a recipe (`derive`): identity, square, product of two leaves, or an alias of 
   em_cont     EditableModule holding the tensors in a list and a dict (names like "lst[1]", "dct['k']")
   em_nn       EditableModule whose tensors live in an nn.Module attribute ("mod.p0")
   sib1        make_sibling(obj.method) around an `em` object
-  sib2        make_sibling(obj1.method, obj2.method): the tensors are split over two objects (em + nn)
+  sib2        make_sibling(obj1.method, obj2.method): the tensors are split over two objects (em + nn); with spec["sib3"] a plain
+              function without object tensors sits between the two members
 
 For every kind a subset of the effective tensors may instead be passed explicitly (`explicit[j]`), an unused
 tensor may be added (explicitly or object-held) and a non-tensor parameter may be interleaved.
@@ -332,7 +333,11 @@ def build_function(core: Callable, leaves: List[torch.Tensor], spec: dict, count
                 return out
         o1, o2 = PartEM(), PartNN()
 
-        @xitorch.make_sibling(o1.part, o2.forward)
+        def _plain(*a):          # a member without any object tensors (spec "sib3": in the middle of the sibling list)
+            return None
+        members = (o1.part, _plain, o2.forward) if spec.get("sib3") else (o1.part, o2.forward)
+
+        @xitorch.make_sibling(*members)
         def sib(*args):
             counter.tick()
             held = dict(o1.part())
@@ -381,8 +386,11 @@ def funspec_st(draw, nleaves: int, neff: int, kinds=KINDS, allow_unused=True, al
     unused = draw(st.sampled_from([None, None, None, "explicit", "object"])) if allow_unused else None
     if kind == "pure" and unused == "object":
         unused = "explicit"
-    return {"kind": kind, "derive": derive, "explicit": explicit, "unused": unused,
+    spec = {"kind": kind, "derive": derive, "explicit": explicit, "unused": unused,
             "nontensor": draw(st.booleans()), "scale": draw(st.sampled_from([1.0, 0.5, 2.0, -1.5]))}
+    if kind == "sib2":
+        spec["sib3"] = draw(st.booleans())      # make_sibling(obj1.method, plain_function, obj2.method)
+    return spec
 
 
 def seeded(seed: int) -> torch.Generator:
